@@ -69,9 +69,12 @@ def rand_cores(rng, row_dims, col_dims, ranks, cplx=False, kind='gauss'):
         else:
             raise ValueError(kind)
         cores.append(c)
+    if LAYOUT and rng.random() < LAYOUT:
+        cores = [relayout(rng, c, readonly=False) for c in cores]
     return cores
 
 
+LAYOUT = 0.0  # probability that the cores of a generated train get unusual memory layouts (see relayout)
 ALIAS = 0.0  # probability that equal-shaped cores of a generated train are one and the same ndarray object
 PROV = 0.0  # probability that a generated operand is passed through `provenance` (set by the property drivers)
 
@@ -80,6 +83,8 @@ def rand_tt(rng, row_dims, col_dims, ranks, cplx=False, kind='gauss', scale=None
     cores = rand_cores(rng, row_dims, col_dims, ranks, cplx, kind)
     if scale is not None:
         apply_scale(cores, rng, scale)
+    if LAYOUT and rng.random() < LAYOUT:
+        cores = [relayout(rng, c) for c in cores]
     if ALIAS and len(cores) > 1 and rng.random() < ALIAS:
         # one ndarray object at several positions of the train (e.g. a rank-one tensor x (x) x (x) x written as TT([x, x, x]), or a
         # homogeneous chain): perfectly legal, and the only way a sweep that writes through a core buffer harms the train itself
@@ -311,3 +316,25 @@ def data_matrix(rng, shape, lim=1.5):
     elif u < 0.2:
         x = np.where(rng.random(shape) < 0.3, 0.0, x)
     return np.asarray(x, dtype=float)
+
+
+def relayout(rng, c, readonly=True):
+    """the same values in another memory layout: Fortran order, a strided view into a larger buffer, a view with a negative
+    stride, or a read-only array - nothing in the properties depends on how a core is laid out in memory"""
+    c = np.asarray(c)
+    k = int(rng.integers(0, 5 if readonly else 4))
+    if k == 0:
+        return np.asfortranarray(c)
+    if k == 1:  # every second element of a larger buffer along the last axis
+        big = np.zeros(c.shape[:-1] + (2 * c.shape[-1],), dtype=c.dtype)
+        big[..., ::2] = c
+        return big[..., ::2]
+    if k == 2:  # reversed view of a reversed copy (negative stride along the first mode axis)
+        return np.ascontiguousarray(c[:, ::-1])[:, ::-1]
+    if k == 3:  # interior block of a larger buffer
+        big = np.zeros(tuple(n + 2 for n in c.shape), dtype=c.dtype)
+        big[1:-1, 1:-1, 1:-1, 1:-1] = c
+        return big[1:-1, 1:-1, 1:-1, 1:-1]
+    out = np.array(c, copy=True)
+    out.setflags(write=False)
+    return out
